@@ -458,6 +458,18 @@ func detrestMultiSelect(c *Ctx, r *Rng) {
 			}
 			ps[i] = qrdetector.NewFinderPattern(x, y, sz, r.Range(1, 5))
 		}
+		if cnt == 4 && r.Chance(0.5) { // boundary triples: a right angle with legs a, b and module size u so that the tests
+			// `vABBC >= 0.1`, `estimatedModuleCount < 9`, `> 180` are met with equality (or one step off), plus a far fourth centre
+			ab := [][2]float64{{10, 11}, {11, 10}, {20, 22}, {9, 9}, {180, 180}, {10, 10}, {9, 8.5}, {180, 181}, {100, 111}}[r.Intn(9)]
+			u := float64(r.Pick([]int{1, 2, 4}))
+			x0, y0 := float64(r.Range(0, 50)), float64(r.Range(0, 50))
+			ps[0] = qrdetector.NewFinderPattern(x0, y0, u, 2)
+			ps[1] = qrdetector.NewFinderPattern(x0+ab[0]*u, y0, u, 2)
+			ps[2] = qrdetector.NewFinderPattern(x0, y0+ab[1]*u, u, 2)
+			ps[3] = qrdetector.NewFinderPattern(x0+5000, y0+7000, u, 2)
+			r2 := r.Intn(4)
+			ps[0], ps[r2] = ps[r2], ps[0]
+		}
 		orig := detrestFPsBits(ps)
 		f := multidet.NewMultiFinderPatternFinder(c06detNew(1, 1), nil)
 		f.VerifSetPossibleCenters(ps)
